@@ -355,6 +355,25 @@ def case_total(**p):
 
 
 # ---------------------------------------------------------------- (3) synonyms
+def _constraint_pairs():
+  from tensorflow_lattice.python import lattice_layer as LLm, linear_layer as LINm
+  return [
+      ('LatticeConstraints strings vs ints',
+       lambda: LLm.LatticeConstraints(lattice_sizes=[2, 3], monotonicities=['increasing', 'none'], unimodalities=['none', 'valley'],
+                                      edgeworth_trusts=[(0, 1, 'positive')], output_min=0.0, output_max=1.0, num_projection_iterations=1),
+       lambda: LLm.LatticeConstraints(lattice_sizes=[2, 3], monotonicities=[1, 0], unimodalities=[0, 1], edgeworth_trusts=[(0, 1, 1)],
+                                      output_min=0.0, output_max=1.0, num_projection_iterations=1), [6, 2]),
+      ('LatticeConstraints single tuples vs lists',
+       lambda: LLm.LatticeConstraints(lattice_sizes=[2, 2], monotonicities=[1, 1], trapezoid_trusts=(0, 1, 'negative'), monotonic_dominances=(0, 1),
+                                      num_projection_iterations=1),
+       lambda: LLm.LatticeConstraints(lattice_sizes=[2, 2], monotonicities=[1, 1], trapezoid_trusts=[(0, 1, -1)], monotonic_dominances=[(0, 1)],
+                                      num_projection_iterations=1), [4, 1]),
+      ('LinearConstraints strings vs ints',
+       lambda: LINm.LinearConstraints(monotonicities=['increasing', 'decreasing', 'none'], normalization_order=1),
+       lambda: LINm.LinearConstraints(monotonicities=[1, -1, 0], normalization_order=1), [3, 2]),
+  ]
+
+
 def case_synonyms(**p):
   import tensorflow as tf
   import tensorflow_lattice as tfl
@@ -381,6 +400,28 @@ def case_synonyms(**p):
       ('kfl increasing vs 1', lambda: L.KroneckerFactoredLattice(lattice_sizes=2, monotonicities=['increasing', 'none'], output_min=0.0),
        lambda: L.KroneckerFactoredLattice(lattice_sizes=2, monotonicities=[1, 0], output_min=0.0), [None, 2], None),
   ]
+  # the constraint classes constructed directly (users attach them to their own variables)
+  from tensorflow_lattice.python import lattice_layer as LLm, linear_layer as LINm
+  cpairs = _constraint_pairs()
+  for label, mk_a, mk_b, wshape in cpairs:
+    try:
+      ca_, cb_ = mk_a(), mk_b()
+    except Exception as e:  # pylint: disable=broad-except
+      case.record('synonymous-spellings-configure-identical-behaviour[%s]' % label, 'sat', kind='structural', witness={},
+                  replay=dict(fn='syn-constraint', label=label), sig=dict(query='synonym', label=label),
+                  note='one spelling is not accepted: %s: %s' % (type(e).__name__, str(e)[:120]))
+      continue
+    tca = Traced(lambda w, c_=ca_: c_(w), [tf.TensorSpec(wshape, tf.float32)], name=label)
+    tcb = Traced(lambda w, c_=cb_: c_(w), [tf.TensorSpec(wshape, tf.float32)], name=label + "'")
+    sym.new_ctx()
+    W = sym.symbolic('w', tuple(wshape))
+    (oa,) = tca.sym_run(W)
+    (ob,) = tcb.sym_run(W)
+    flat0 = lambda outs: np.asarray(outs[0]).reshape(-1)
+    case.identity('synonymous-spellings-configure-identical-behaviour[%s]' % label,
+                  list(zip(np.asarray(oa, dtype=object).reshape(-1), np.asarray(ob, dtype=object).reshape(-1))), witness=dict(w=W), timeout=60,
+                  sig=dict(query='synonym'),
+                  inline_replay=lambda m, tca=tca, tcb=tcb, W=W: core.compare_tf(m, [(tca, [W], {}, flat0), (tcb, [W], {}, flat0)]))
   for label, mk_a, mk_b, shape, kshape in pairs:
     la, lb = mk_a(), mk_b()
     la.build(tf.TensorShape(shape))
@@ -495,6 +536,15 @@ def case_canon(**p):
 
 def replay(r):
   rp = r['replay']
+  if rp['fn'] == 'syn-constraint':
+    for label, mk_a, mk_b, wshape in _constraint_pairs():
+      if label == rp['label']:
+        try:
+          mk_a()
+          mk_b()
+        except Exception as e:  # pylint: disable=broad-except
+          return dict(reproduced=True, detail='%s: %s' % (type(e).__name__, str(e)[:200]))
+        return dict(reproduced=False, detail='both spellings accepted')
   if rp['fn'] == 'syn-init':
     return _init_compare(rp['label'])
   if rp['fn'] == 'reject':
